@@ -1,0 +1,113 @@
+/* This Source Code Form is subject to the terms of the Mozilla Public
+ * License, v. 2.0. If a copy of the MPL was not distributed with this
+ * file, You can obtain one at https://mozilla.org/MPL/2.0/. */
+
+//! Verification backend (only compiled with `--cfg cameleon_verif`).
+//!
+//! Replaces the libusb device/handle types by a scripted in-memory endpoint supplied by a
+//! test harness, so that `ControlChannel`, `ReceiveChannel` and `AsyncPool` run unmodified on top
+//! of it.
+
+use std::{sync::Arc, time::Duration};
+
+use super::{LibUsbError, Result};
+
+/// Outcome of polling an asynchronous bulk-in transfer.
+pub enum VerifPoll {
+    /// The transfer completed with the given data (or transfer error).
+    Completed(std::result::Result<Vec<u8>, LibUsbError>),
+    /// The transfer didn't complete within the timeout.
+    Pending,
+}
+
+/// Scripted USB endpoint behaviour.
+pub trait VerifUsb: Send + Sync {
+    fn claim_interface(&self, iface: u8) -> std::result::Result<(), LibUsbError>;
+    fn release_interface(&self, iface: u8) -> std::result::Result<(), LibUsbError>;
+    fn read_bulk(
+        &self,
+        endpoint: u8,
+        buf: &mut [u8],
+        timeout: Duration,
+    ) -> std::result::Result<usize, LibUsbError>;
+    fn write_bulk(
+        &self,
+        endpoint: u8,
+        buf: &[u8],
+        timeout: Duration,
+    ) -> std::result::Result<usize, LibUsbError>;
+    fn clear_halt(&self, endpoint: u8) -> std::result::Result<(), LibUsbError>;
+    fn write_control(
+        &self,
+        request_type: u8,
+        request: u8,
+        value: u16,
+        index: u16,
+        buf: &[u8],
+        timeout: Duration,
+    ) -> std::result::Result<usize, LibUsbError>;
+
+    /// Submit an asynchronous bulk-in transfer of `len` bytes, returns its id.
+    fn submit_bulk(&self, endpoint: u8, len: usize) -> std::result::Result<u64, LibUsbError>;
+    /// Wait up to `timeout` for the completion of transfer `id`.
+    fn poll_bulk(&self, id: u64, timeout: Duration) -> VerifPoll;
+    /// Cancel transfer `id`. A cancelled transfer completes with `LibUsbError::Timeout`.
+    fn cancel_bulk(&self, id: u64);
+}
+
+pub struct LibUsbDevice(pub(super) Option<Arc<dyn VerifUsb>>);
+
+impl LibUsbDevice {
+    pub(super) fn open(&self) -> Result<LibUsbDeviceHandle> {
+        match &self.0 {
+            Some(usb) => Ok(LibUsbDeviceHandle(usb.clone())),
+            None => Err(LibUsbError::NoDevice.into()),
+        }
+    }
+}
+
+#[derive(Clone)]
+pub struct LibUsbDeviceHandle(pub(super) Arc<dyn VerifUsb>);
+
+impl LibUsbDeviceHandle {
+    pub(super) fn claim_interface(&mut self, iface: u8) -> Result<()> {
+        Ok(self.0.claim_interface(iface)?)
+    }
+
+    pub(super) fn release_interface(&mut self, iface: u8) -> Result<()> {
+        Ok(self.0.release_interface(iface)?)
+    }
+
+    pub(super) fn read_bulk(&self, endpoint: u8, buf: &mut [u8], timeout: Duration) -> Result<usize> {
+        Ok(self.0.read_bulk(endpoint, buf, timeout)?)
+    }
+
+    pub(super) fn write_bulk(&self, endpoint: u8, buf: &[u8], timeout: Duration) -> Result<usize> {
+        Ok(self.0.write_bulk(endpoint, buf, timeout)?)
+    }
+
+    pub(super) fn clear_halt(&mut self, endpoint: u8) -> Result<()> {
+        Ok(self.0.clear_halt(endpoint)?)
+    }
+
+    pub(super) fn write_control(
+        &self,
+        request_type: u8,
+        request: u8,
+        value: u16,
+        index: u16,
+        buf: &[u8],
+        timeout: Duration,
+    ) -> Result<usize> {
+        Ok(self
+            .0
+            .write_control(request_type, request, value, index, buf, timeout)?)
+    }
+}
+
+/// A pending fake transfer of `AsyncPool`.
+pub(super) struct VerifTransfer {
+    pub(super) id: u64,
+    pub(super) ptr: *mut u8,
+    pub(super) len: usize,
+}
